@@ -6,6 +6,7 @@ relies on; the rewrite itself is compared on the real code by the `dist` oracle)
 import PromqlVerif.Sem
 import PromqlVerif.Gen.Facts
 import PromqlVerif.Proofs.Pushdown
+import PromqlVerif.Proofs.DistAgg
 namespace PromqlVerif.C10
 open PromqlVerif Val
 
@@ -95,6 +96,88 @@ example : LtLaws (fun v : Int => isNaN v = false) :=
 example : NanLaw Int := fun a _ h => by cases h
 example : aggReduce "max" (0 : Int) ([3, 1] ++ [[7], [2, 5]].flatten)
     = aggReduce "max" 0 (aggReduce "max" 0 [3, 1] :: [[7], [2, 5]].map (aggReduce "max" 0)) := by decide
+
+/-! ### the push-down of a whole aggregation -/
+
+theorem rered_max (L : LtLaws (fun v : V => isNaN v = false)) (hn : NanLaw V) (p : V) :
+    Rered (aggReduce "max" p) (aggReduce "max" p) := fun l0 ls h0 hne => max_pushdown L hn p l0 ls h0 hne
+
+theorem rered_min (L : LtLaws (fun v : V => isNaN v = false)) (hn : NanLaw V) (p : V) :
+    Rered (aggReduce "min" p) (aggReduce "min" p) := fun l0 ls h0 hne => min_pushdown L hn p l0 ls h0 hne
+
+theorem rered_sum (hassoc : ∀ a b c : V, add (add a b) c = add a (add b c)) (p : V) :
+    Rered (aggReduce "sum" p) (aggReduce "sum" p) := fun l0 ls h0 hne => sum_pushdown hassoc p l0 ls h0 hne
+
+theorem rered_group (p : V) : Rered (aggReduce "group" p) (aggReduce "group" p) := by
+  intro l0 ls h0 _
+  cases l0 with
+  | nil => exact absurd rfl h0
+  | cons a as => simp [aggReduce]
+
+/-- `count` is re-reduced by `sum`, where `ofInt` is additive -/
+theorem rered_count (hadd : ∀ x y : Int, (ofInt (x + y) : V) = add (ofInt x) (ofInt y)) (p : V) :
+    Rered (aggReduce "count" p) (aggReduce "sum" p) := by
+  intro l0 ls h0 hne
+  have hcount : ∀ l : List V, l ≠ [] → aggReduce "count" p l = ofInt l.length := by
+    intro l hl
+    cases l with
+    | nil => exact absurd rfl hl
+    | cons a as => simp [aggReduce]
+  have hfold : ∀ (ls : List (List V)) (n : Int), (∀ l ∈ ls, l ≠ []) →
+      (ls.map (aggReduce "count" p)).foldl add (ofInt n) = ofInt (n + (ls.flatten.length : Int)) := by
+    intro ls
+    induction ls with
+    | nil => intro n _; simp
+    | cons l ls ih =>
+      intro n hne
+      simp only [List.map_cons, List.foldl_cons, List.flatten_cons, List.length_append]
+      rw [hcount l (hne l List.mem_cons_self), ← hadd, ih _ (fun q hq => hne q (List.mem_cons_of_mem _ hq))]
+      congr 1
+      push_cast
+      omega
+  have hne0 : l0 ++ ls.flatten ≠ [] := by
+    intro h
+    exact h0 (List.append_eq_nil_iff.mp h).1
+  rw [hcount _ hne0, hcount l0 h0]
+  simp only [aggReduce, List.length_append]
+  rw [hfold ls _ hne]
+  congr 1
+
+/-- **an aggregation that is pushed down gives the central result**: for every grouping
+(`by`/`without`, any label list), any number of partitions - empty ones, groups split across
+partitions, series in any order - aggregating each partition's samples with `op` and
+re-aggregating the concatenated partial results with `op'` yields the groups and values of
+aggregating the union with `op` (up to the order of the groups), whenever `op'` re-reduces `op`
+(`rered_*`: max/max and min/min exactly for IEEE comparison, group/group, sum/sum under
+associativity, count/sum under additivity of `ofInt`). This is the rewrite
+`agg(x) -> agg'(coalesce(remote(agg(x)), ...))` of `logicalplan/distribute.go`. -/
+theorem aggregation_pushdown (op op' : String) (w : Bool) (g : List String) (p : V)
+    (hop : (op == "topk" || op == "bottomk") = false) (hop' : (op' == "topk" || op' == "bottomk") = false)
+    (hR : Rered (aggReduce op p) (aggReduce op' p)) (parts : List (Vec V)) :
+    ∃ partials dist central,
+      parts.mapM (aggregate op w g p) = .ok partials ∧
+      aggregate op' w g p partials.flatten = .ok dist ∧
+      aggregate op w g p parts.flatten = .ok central ∧
+      dist.Perm central := by
+  refine ⟨parts.map (aggR (groupKey w g) (aggReduce op p)), _, _, ?_, aggregate_eq_aggR op' w g p _ hop',
+    aggregate_eq_aggR op w g p _ hop, aggR_pushdown (groupKey w g) (groupKey_idem w g) _ _ hR parts⟩
+  induction parts with
+  | nil => rfl
+  | cons P ps ih =>
+    simp only [List.mapM_cons, aggregate_eq_aggR op w g p P hop, ih, bind, Except.bind, pure, Except.pure, List.map_cons]
+
+example : ∀ a b c : Int, add (add a b) c = add a (add b c) := fun a b c => Int.add_assoc a b c
+
+/-- a group split across two partitions, a third partition empty: count is re-aggregated with sum -/
+example :
+    (aggregate "sum" false ["a"] (0 : Int)
+        ((aggregate "count" false ["a"] (0 : Int)
+            [([⟨"a", "x"⟩, ⟨"b", "1"⟩], 5), ([⟨"a", "z"⟩], 7)]).toOption.getD []
+          ++ (aggregate "count" false ["a"] (0 : Int) [([⟨"a", "x"⟩, ⟨"b", "2"⟩], 9)]).toOption.getD []
+          ++ (aggregate "count" false ["a"] (0 : Int) []).toOption.getD [])).toOption
+      = (aggregate "count" false ["a"] (0 : Int)
+          [([⟨"a", "x"⟩, ⟨"b", "1"⟩], 5), ([⟨"a", "z"⟩], 7), ([⟨"a", "x"⟩, ⟨"b", "2"⟩], 9)]).toOption := by
+  decide
 
 /-- the aggregations the source pushes down (regenerated): `count` among them is rewritten to
 a central `sum` -/
